@@ -30,7 +30,7 @@ def run(tier, deadline):
         kv = dict(l.split("=", 1) for l in v.replay_text.strip().splitlines()); return replay(kv, quiet=True) == 1
     alloc_cases = [c for c in cases if c["allocations"]]
     cov = {"evaluations": stat.get("runs", 0), "distinct_nontrivial": max(2, stat.get("runs", 0) - len(cases)),
-           "rule": "34 cases reaching every malloc/realloc site of the library (formatted output with %ls, long double and wide fields; the wide printf probe buffers of swprintf_s/snwprintf_s/vswprintf_s/vsnwprintf_s with dmax on both sides of the 512-element limit, for a space problem and for a conversion error of a narrow %s argument; wcsnorm_s with long decompositions and long mark runs; the folding comparisons, also with operands whose folding triples); for every case a dry run counts the library-originated allocation requests (link-time --wrap on the library only); the case is re-run failing the k-th request for every k (thorough: every pair k<j); oracle: no fault, failure indicated, dest cleared, zero live library blocks at return; also zero live blocks after every unfaulted case; non-trivial = runs with an injected failure",
+           "rule": "43 cases reaching every malloc/realloc site of the library (formatted output with %ls, long double and wide fields; the wide printf probe buffers of swprintf_s/snwprintf_s/vswprintf_s/vsnwprintf_s with dmax on both sides of the 512-element limit, for a space problem and for a conversion error of a narrow %s argument; wcsnorm_s with long decompositions and long mark runs; the folding comparisons, also with operands whose folding triples); for every case a dry run counts the library-originated allocation requests (link-time --wrap on the library only); the case is re-run failing the k-th request for every k (thorough: every pair k<j); oracle: no fault, failure indicated, dest cleared, zero live library blocks at return; also zero live blocks after every unfaulted case; non-trivial = runs with an injected failure",
            "samples": [f"{c['name']}: {c['allocations']} allocation(s), each failed in turn" for c in alloc_cases][:14],
            "allocating_cases": len(alloc_cases), "allocation_sites_reached": stat.get("allocation_requests", 0), "failure_pairs": tier != "quick"}
     return common.finish("C20", tier, t0, cov, violations, ["--wrap redirects exactly the library's own malloc/realloc/calloc/free references", "the case list reaches every allocation site named by the property (checked by the per-case request counts)"], confirm=confirm, exhaustive=True)
